@@ -119,6 +119,7 @@ type c12Exec struct {
 	harness       string
 	sharedChanged []string
 	midChanges    int
+	globalsNote   int // observations of a changed package-level variable (a cache, a pool): noted, not a violation by itself
 }
 
 // c12Execute runs one schedule of a fresh instance of scenario #si.
@@ -157,7 +158,7 @@ func c12Execute(si int, choices []int, snapshotEveryPoint bool) c12Exec {
 	if snapshotEveryPoint {
 		s.onSwitch = func() {
 			if snap.Take(false, shared...).Hash != before.Hash {
-				ex.midChanges++
+				ex.globalsNote++
 			}
 		}
 	}
@@ -188,10 +189,13 @@ func c12Execute(si int, choices []int, snapshotEveryPoint bool) c12Exec {
 		ex.results = append(ex.results, t.result)
 		ex.panics = append(ex.panics, t.panic)
 	}
-	after := snap.Take(false, shared...)
-	if after.Hash != before.Hash {
-		// recompute verbosely on a fresh instance is impossible (the state is gone); report by re-walking both verbosely now
-		ex.sharedChanged = []string{"the deep snapshot of the shared values / package-level variables changed during the execution"}
+	// the shared VALUES must read as before; a changed package-level variable (a correctly synchronised cache would be one) is
+	// only noted: whether it matters is decided by the results (compared with the sequential ones on every schedule) and by the
+	// race detector pass
+	if snap.Take(false, sharedArgs...).Hash != beforeArgs.Hash {
+		ex.sharedChanged = []string{"the deep snapshot of the shared values changed during the execution"}
+	} else if snap.Take(false, shared...).Hash != before.Hash {
+		ex.globalsNote++
 	}
 	return ex
 }
@@ -247,6 +251,9 @@ func (e *c12Explorer) check(ex c12Exec, choices []int) {
 	}
 	if ex.midChanges > 0 {
 		e.t.Fail(key("shared-value-modified-mid-execution"), "the shared snapshot differed from the initial one at %d yield points\n%s", ex.midChanges, sched)
+	}
+	if ex.globalsNote > 0 {
+		e.t.Count("executions_in_which_a_package_level_variable_changed", 1)
 	}
 	e.outcomes[strings.Join(ex.results, "\x00")] = true
 	e.t.Ops(len(ex.steps))
@@ -582,22 +589,28 @@ func c12Sequential(c *engine.Ctx) {
 			x, twin := r.Item(), r.Item()
 			t.Distinct(len(r.Sets) > 0)
 			for _, op := range ops {
-				before := snap.Take(false, append([]any{x, twin}, c12Globals()...)...)
+				before := snap.Take(false, x, twin)
+				gBefore := snap.Take(false, c12Globals()...)
 				res := op.run(x, twin)
 				t.Ops(1)
-				after := snap.Take(false, append([]any{x, twin}, c12Globals()...)...)
+				after := snap.Take(false, x, twin)
+				if snap.Take(false, c12Globals()...).Hash != gBefore.Hash {
+					// a package-level variable changed (a cache, a pool, a lazily built table): not a violation by itself
+					t.Count("operations_after_which_a_package_level_variable_had_changed", 1)
+					t.Outcome("package-level variable changed by " + op.name)
+				}
 				if before.Hash != after.Hash {
 					// find out what changed: redo on fresh values with verbose snapshots
 					y, tw2 := r.Item(), r.Item()
-					vb := snap.Take(true, append([]any{y, tw2}, c12Globals()...)...)
+					vb := snap.Take(true, y, tw2)
 					op.run(y, tw2)
-					va := snap.Take(true, append([]any{y, tw2}, c12Globals()...)...)
+					va := snap.Take(true, y, tw2)
 					d := snap.Diff(vb, va)
 					where := "?"
 					if len(d) > 0 {
 						where = pathClass(d[0])
 					}
-					t.Fail(fmt.Sprintf("C12|sequential|%s|argument-modified|%s", op.name, where), "%s modified its argument (or a package-level variable): %v", op.name, d)
+					t.Fail(fmt.Sprintf("C12|sequential|%s|argument-modified|%s", op.name, where), "%s modified its argument: %v", op.name, d)
 				}
 				// result stability: the bytes returned by an earlier call must not change when a later call runs
 				if prev != nil && string(prev) != string(prevCopy) {
@@ -646,6 +659,16 @@ func c12Sequential(c *engine.Ctx) {
 			return &ap.OrderedCollection{ID: "https://example.com/oc", Type: ap.OrderedCollectionType, OrderedItems: ap.ItemCollection{(*ap.Object)(nil), ap.IRI("https://example.com/a"), nil, ap.IRI("https://example.com/b")}}
 		},
 		func() ap.Item { return ap.IRI("https://example.com/x?a=1#f") },
+		// language lists of every unusual make-up (an explicit "und" beside an untagged entry, repeated tags, ill-formed UTF-8,
+		// one untagged + one tagged, subtags) in every text property at once
+		func() ap.Item { return c12TextObject("nlv-und+untagged") },
+		func() ap.Item { return c12TextObject("nlv-repeated-tag") },
+		func() ap.Item { return c12TextObject("nlv-ill-formed") },
+		func() ap.Item { return c12TextObject("nlv-untagged+tagged") },
+		func() ap.Item { return c12TextObject("nlv-tagged+untagged") },
+		func() ap.Item { return c12TextObject("nlv-subtags") },
+		func() ap.Item { return c12TextObject("nlv-bracket") },
+		func() ap.Item { return c12TextObject("nlv-4097") },
 		func() ap.Item {
 			col := make(ap.ItemCollection, 2, 8)
 			col[0], col[1] = ap.IRI("https://example.com/1"), &ap.Object{ID: "https://example.com/2", Type: ap.NoteType}
@@ -664,9 +687,9 @@ func c12Sequential(c *engine.Ctx) {
 			t.Distinct(true)
 			x, twin := mk(), mk()
 			for _, op := range ops {
-				before := snap.Take(false, append([]any{x, twin}, c12Globals()...)...)
+				before := snap.Take(false, x, twin)
 				op.run(x, twin)
-				after := snap.Take(false, append([]any{x, twin}, c12Globals()...)...)
+				after := snap.Take(false, x, twin)
 				if before.Hash != after.Hash {
 					t.Fail(fmt.Sprintf("C12|sequential|%s|argument-modified|bare-%s", op.name, reflect.TypeOf(x).String()), "%s modified a %T (lists with nil/empty members or spare capacity)", op.name, x)
 				}
@@ -674,6 +697,20 @@ func c12Sequential(c *engine.Ctx) {
 			}
 		})
 	}
+}
+
+// c12TextObject is an actor whose name, summary, content, preferredUsername and source.content all hold the named shape.
+func c12TextObject(shape string) ap.Item {
+	for _, sh := range universe.Shapes(universe.KNLV) {
+		if sh.Name == shape {
+			mk := func() ap.NaturalLanguageValues {
+				return sh.Build(&universe.Gen{}).Interface().(ap.NaturalLanguageValues)
+			}
+			return &ap.Actor{ID: "https://example.com/texts", Type: ap.PersonType, Name: mk(), Summary: mk(), Content: mk(), PreferredUsername: mk(),
+				Source: ap.Source{Content: mk(), MediaType: "text/plain"}, Tag: ap.ItemCollection{&ap.Object{Type: ap.NoteType, Name: mk()}}}
+		}
+	}
+	panic("no such language-list shape: " + shape)
 }
 
 // pathClass strips indices and addresses from a snapshot diff line, for finding keys.
